@@ -256,7 +256,7 @@ def derived_name_pairs(text):
                 continue
             if cid(u) == cid(tn) + "_PR":
                 out.add("PR")
-            if cid(u) == cid(tn) + "_t" and uk in ("SEQUENCE", "SET", "CHOICE"):
+            if cid(u) == cid(tn) + "_t" and uk in ("SEQUENCE", "SET", "CHOICE", "ENUMERATED", "INTEGER", "BIT"):   # enum tags meet the typedef name the same way
                 out.add("t")
             if sum(1 for _m, n, _ in names if n == tn) > 1 and cid(u) == cid(m2) + "_" + cid(tn):
                 out.add("prefix")
